@@ -347,16 +347,8 @@ def allSites : List Site :=
    .sourceInitPat, .sourceInitNode, .srcRenamePatRemove, .srcRenamePatAdd, .srcRenameNodeRemove, .srcRenameNodeAdd,
    .sourceNodeRemove, .sourceNodeAdd]
 
-def isRenameSite : Site → Bool
-  | .srcRenamePatRemove | .srcRenamePatAdd | .srcRenameNodeRemove | .srcRenameNodeAdd => true
-  | _ => false
-
 def siteRow (st : Site) : String × String × String × String × String :=
   ((siteInfo st).1, (siteInfo st).2.1, regS (siteReg st), (siteInfo st).2.2.1, (siteInfo st).2.2.2)
-
-/-- the tree before fixes/C14-source-rename-moves-registry-entry.patch has no calls in `Source.name.setter` -/
-def expectedUsageCallsBeforeRename : List (String × String × String × String × String) :=
-  (allSites.filter (fun st => !isRenameSite st)).map siteRow
 
 def expectedUsageCalls : List (String × String × String × String × String) :=
   allSites.map fun st => ((siteInfo st).1, (siteInfo st).2.1, regS (siteReg st), (siteInfo st).2.2.1, (siteInfo st).2.2.2)
